@@ -268,6 +268,7 @@ func runSched(c *schedCase, api string, wd time.Duration) (o schedObs, logs map[
 			atomic.AddInt32(&readsAfter, 1)
 		}
 	}
+	before := bclGoroutineIDs()
 	setSink(st.sink)
 	type res struct {
 		err error
@@ -317,12 +318,12 @@ func runSched(c *schedCase, api string, wd time.Duration) (o schedObs, logs map[
 		}
 	case <-time.After(wd):
 		o.Hang = true
-		o.Leaked = bclGoroutines()
+		o.Leaked = bclGoroutinesSince(before)
 		return o, nil
 	}
 	deadline := time.Now().Add(1000 * time.Millisecond)
 	for time.Now().Before(deadline) {
-		if atomic.LoadInt32(&f.closes) >= 1 && bclGoroutines() == "" {
+		if atomic.LoadInt32(&f.closes) >= 1 && bclGoroutinesSince(before) == "" {
 			break
 		}
 		time.Sleep(100 * time.Microsecond)
@@ -331,7 +332,7 @@ func runSched(c *schedCase, api string, wd time.Duration) (o schedObs, logs map[
 	o.Closes = int(atomic.LoadInt32(&f.closes))
 	o.Reads = int(atomic.LoadInt32(&f.reads))
 	o.RAfter = int(atomic.LoadInt32(&readsAfter))
-	o.Leaked = bclGoroutines()
+	o.Leaked = bclGoroutinesSince(before)
 	o.Passed = int(atomic.LoadInt32(&st.passed))
 	for k := 0; k < f.i && k < len(f.steps); k++ {
 		if e := f.steps[k].err; e != nil && e != io.EOF {
